@@ -641,7 +641,8 @@ class Frame(object):
         t = self.cond_text(test, st)
         if t in self.sc.axioms:
             return self.sc.axioms[t]
-        if self.sc.oracle is not None:
+        if self.sc.oracle is not None and not isinstance(test, ast.BoolOp) and \
+                not (isinstance(test, ast.UnaryOp) and isinstance(test.op, ast.Not)):
             o = self.sc.oracle(t)
             if o is not None:
                 return o
@@ -1174,7 +1175,7 @@ class Frame(object):
                     return Const(None)
             if isinstance(recv, Bytes) and meth == 'join' and len(args) == 1:
                 record(ftext)
-                if isinstance(args[0], ListV) and not recv.items:
+                if isinstance(args[0], ListV) and not merge_consts(recv.items):
                     its = []
                     for e in args[0].elems:
                         its.extend(as_items(e))
